@@ -197,6 +197,21 @@ func builderCase(run *ev.Run, i int) {
 			}
 		} else {
 			exp.Want = "form_post"
+			if r.IntN(3) == 0 {
+				// a page for ANOTHER login whose user agent went away while it was being written (the body write
+				// fails after k bytes) immediately precedes the judged one on this goroutine: whatever the
+				// renderer keeps between calls must not reach the next page
+				lost := &lostClient{after: []int{0, 0, 7, 300}[r.IntN(4)]}
+				lostResp := &codeResponse{Code: fmt.Sprintf("LOST-CODE-%d", i), State: fmt.Sprintf("LOST-STATE-%d", i)}
+				lpi := mon.Catch(func() { _ = op.AuthResponseFormPost(lost, "https://lost.example/cb", lostResp, enc) })
+				input["preceded_by_a_page_whose_write_failed_after_bytes"] = lost.after
+				run.Count("builder_calls", "AuthResponseFormPost:preceding-write-fault")
+				if lpi != nil {
+					reportPanic(run, exp, lpi)
+					return
+				}
+				run.Observed("builder:form_post-after-write-fault")
+			}
 			pi = mon.Catch(func() { callErr = op.AuthResponseFormPost(rec, uri, response, enc) })
 		}
 	case "AuthRequestError", "TryErrorRedirect":
@@ -314,4 +329,31 @@ func sampleOK(run *ev.Run, kind string, exp *expect, d delivery, body string) {
 		s["location"] = trunc(d.Location, 1500)
 	}
 	run.SampleKind(kind, s)
+}
+
+// lostClient is a ResponseWriter whose body writes fail once `after` bytes were taken (the user agent went away).
+type lostClient struct {
+	h     http.Header
+	after int
+	n     int
+}
+
+func (l *lostClient) Header() http.Header {
+	if l.h == nil {
+		l.h = http.Header{}
+	}
+	return l.h
+}
+func (l *lostClient) WriteHeader(int) {}
+func (l *lostClient) Write(b []byte) (int, error) {
+	room := l.after - l.n
+	if room <= 0 {
+		return 0, errors.New("write: broken pipe")
+	}
+	if len(b) <= room {
+		l.n += len(b)
+		return len(b), nil
+	}
+	l.n += room
+	return room, errors.New("write: broken pipe")
 }
